@@ -178,56 +178,48 @@ Theorem path_never_transits0_nodepot :
     Chain tbl keys p -> ~ In [AS s_TRANSITS; AI 0; AS s_NODEPOT] p.
 Proof. exact Chain_never_t0n. Qed.
 
-(* peripheral compartments are added in increasing order — when the space has at most two
-   peripheral features (guard g_periph; see Refuted.periph_increasing_refuted for three). *)
+(* peripheral compartments are added in increasing order on every accepted path (no guard any more: fix c2f5172
+   made _is_allowed_peripheral the "next larger count" rule; the old counter-models are regression Examples) *)
 Theorem path_peripherals_increasing :
   forall (tbl : combo_table) (keys p : list key),
-    g_periph keys = true -> Chain tbl keys p -> increasing (map karg1 (filter is_periph p)).
-Proof. exact periph_increasing_guarded. Qed.
+    Chain tbl keys p -> increasing (map karg1 (filter is_periph p)).
+Proof. exact periph_increasing_lemma. Qed.
 
-(* reduced_stepwise's collector step: unless the pass meets exactly one expandable same-feature group (the
-   conjunct single_group accumulated by g_reduced_groups; refuted in Refuted.reduced_merge_refuted), every
-   expandable group of output tasks with the same features gets its 'choose_best_model' task and its members stop
-   being output tasks (they could only be listed again under one of the new collector numbers). *)
+(* reduced_stepwise's collector step (`if groups:` after fix e9380e6): every expandable group of output tasks with
+   the same features gets its 'choose_best_model' task and its members stop being output tasks (they could only be
+   listed again under one of the new collector numbers). *)
 Theorem reduced_collect_merges :
   forall (tbl : combo_table) (keys : list key) (ncoll : nat) (leaves : list leaf) (g : list leaf),
-    single_group tbl keys leaves = false ->
     In g (same_model_groups leaves) -> forallb (has_actions tbl keys) g = true ->
     (exists i, In (PColl (ncoll + i), snd (hd (PRoot, []) g)) (fst (collect tbl keys ncoll leaves))) /\
     (forall l, In l g -> In l (fst (collect tbl keys ncoll leaves)) -> exists i, fst l = PColl (ncoll + i)).
 Proof. exact collect_merges_lemma. Qed.
 
-(* _is_allowed IS the documented acceptance rule (Spec.doc_allowed: new feature; one per category; no
-   excluded combination; peripheral counts one step at a time in increasing order) whenever the space
-   has at most two peripheral features listed in increasing order ... *)
+(* _is_allowed IS the documented acceptance rule (Spec.doc_allowed: new feature; one per category; no excluded
+   combination; peripheral counts one step at a time in increasing order) for every feature dictionary ... *)
 Theorem allowed_is_documented :
   forall (tbl : combo_table) (keys : list key) (f : key) (prev : list key),
-    g_periph_sorted keys = true -> In f keys -> incl prev keys ->
-    allowed tbl keys f prev = doc_allowed tbl keys f prev.
+    In f keys -> allowed tbl keys f prev = doc_allowed tbl keys f prev.
 Proof. exact allowed_is_documented_lemma. Qed.
 
-(* ... and then exhaustive_stepwise generates exactly the paths the documented rules allow. *)
+(* ... and exhaustive_stepwise generates exactly the paths the documented rules allow. *)
 Theorem stepwise_paths_documented :
   forall (tbl : combo_table) (keys p : list key),
-    g_periph_sorted keys = true ->
-    (In p (fst (exhaustive_stepwise tbl keys)) <-> p <> [] /\ DocChain tbl keys p).
+    In p (fst (exhaustive_stepwise tbl keys)) <-> p <> [] /\ DocChain tbl keys p.
 Proof. exact stepwise_paths_documented_lemma. Qed.
 
 (* reduced_stepwise also reaches its `break` within |mfl_funcs|+1 passes. *)
 Theorem reduced_terminates :
-  forall (tbl : combo_table) (keys : list key), snd (fst (reduced_stepwise tbl keys)) = true.
+  forall (tbl : combo_table) (keys : list key), snd (reduced_stepwise tbl keys) = true.
 Proof. exact reduced_terminates_lemma. Qed.
 
-(* exhaustive(): the functions reach create_candidate_exhaustive aligned with the feature keys they are zipped
-   with -- for EVERY iteration order of the set they are passed in -- when the space has one category only
-   (guard all_same_cat: every combination is a single feature); see Refuted.exhaustive_zip_refuted. *)
+(* exhaustive(): the functions reach create_candidate_exhaustive aligned with the feature keys they are zipped with,
+   for every combination (a list in key order since fix 16091ea; Examples.exhaustive_zip_regression) *)
 Theorem exhaustive_functions_aligned :
-  forall (K C : Type) (cat : K -> C) (ceqb : C -> C -> bool),
-    (forall a b, ceqb a b = true <-> a = b) ->
-    forall (order : list K -> list K) (keys : list K),
-      (forall c, Permutation (order c) c) -> all_same_cat cat ceqb keys = true ->
-      forall pairs, In pairs (exhaustive_pairs cat ceqb order keys) -> Forall (fun kf => fst kf = snd kf) pairs.
-Proof. exact exhaustive_pairs_aligned. Qed.
+  forall (K C : Type) (cat : K -> C) (ceqb : C -> C -> bool) (keys : list K) (pairs : list (K * K)),
+    In pairs (exhaustive_pairs cat ceqb keys) ->
+    Forall (fun kf => fst kf = snd kf) pairs /\ In (map fst pairs) (all_combinations cat ceqb keys).
+Proof. exact (@exhaustive_pairs_aligned). Qed.
 
 (* ---------------------------------------------------------------- the search-space algebra (mfl/parse.py) *)
 (* Notation: E_modes / E_pairs / E_cov give the explicitly expanded features a statement list denotes. *)
@@ -292,19 +284,20 @@ Theorem mfl_covariates_add_sub :
 Proof. exact add_sub_covariates_spec. Qed.
 
 (* a == b is equality of the denotations -- for well-formed spaces (no `*` in the raw-compared statements) under
-   the three guards g_cov_symmetric, g_tuples_canonical, g_same_metabolite (each refuted in Refuted.v) *)
+   the two remaining guards g_tuples_canonical, g_same_metabolite (each refuted in Refuted.v); the covariate
+   conjunct needs no guard since fix 0aa11f5 *)
 Theorem mfl_eq_is_set_equality :
   forall a b : mf,
     wf_eq_space a = true -> wf_eq_space b = true ->
-    g_cov_symmetric a b = true -> g_tuples_canonical a b = true -> g_same_metabolite a b = true ->
+    g_tuples_canonical a b = true -> g_same_metabolite a b = true ->
     mf_eq a b = Ok (spaces_equal a b).
 Proof. exact mf_eq_is_set_equality. Qed.
 
-(* what _eq_covariate really decides: inclusion of the left effects in the right ones *)
-Theorem mfl_eq_covariate_is_inclusion :
+(* _eq_covariate decides equality of the expanded covariate effects *)
+Theorem mfl_eq_covariate_is_set_equality :
   forall a b : list cstmt,
     forallb cov_ok a = true -> forallb cov_ok b = true ->
-    eq_covariate a b = Ok (subsetb effect_eqb (E_cov a) (E_cov b)).
+    eq_covariate a b = Ok (seteqb effect_eqb (E_cov a) (E_cov b)).
 Proof. exact eq_covariate_spec. Qed.
 
 (* contain_subset's transit test is inclusion of the expansions when the containing space's transit features
@@ -322,13 +315,13 @@ Theorem mfl_printed_form_accepted :
   forall l : list vstmt, g_let_not_forced l = true -> validate l = true -> validate (printed l) = true.
 Proof. exact roundtrip_accepted. Qed.
 
-(* Transits.__eq__: its truth value is right when the statements are equal (guard), cf. Refuted *)
-Theorem transits_eq_truth_guarded :
-  forall (a b : pstmt) (r : bool * bool),
-    transits_stmt_eq a b = Some r ->
-    seteqb pair_eqb (E_stmt [] w_depot a) (E_stmt [] w_depot b) = true ->
-    pair_truth r = seteqb pair_eqb (E_stmt [] w_depot a) (E_stmt [] w_depot b).
-Proof. exact transits_stmt_eq_guarded. Qed.
+(* Transits.__eq__ on statements with explicit non-empty count and depot lists: equality of the expansions *)
+Theorem transits_eq_is_set_equality :
+  forall c1 d1 c2 d2 : list N,
+    c1 <> [] -> d1 <> [] -> c2 <> [] -> d2 <> [] ->
+    transits_stmt_eq (mkP (MList c1) (MList d1)) (mkP (MList c2) (MList d2)) =
+    Some (seteqb pair_eqb (E_stmt [] w_depot (mkP (MList c1) (MList d1))) (E_stmt [] w_depot (mkP (MList c2) (MList d2)))).
+Proof. exact transits_stmt_eq_spec. Qed.
 
 (* least_number_of_transformations(tool='modelsearch'), one mode category (ABSORPTION / ELIMINATION / LAGTIME):
    no transformation when the model's mode lies in the space, otherwise exactly one, to a mode of the space *)
@@ -341,12 +334,11 @@ Theorem lnt_mode_category :
          exists m, items = [LKey [AS catname; AS m]] /\ In m (E_modes w (Some rhs))).
 Proof. exact lnt_modes_spec. Qed.
 
-(* ... peripherals: when the space offers no metabolite compartments (guard g_no_met_peripherals) only a step of
-   the drug's compartments to a count of the space can be returned, and none if the model's count is in the space *)
+(* ... peripherals: only a step of the drug's compartments to a count of the space can be returned, and none if
+   the model's count is in the space (no guard on metabolite compartments since fix 78f8b1d) *)
 Theorem lnt_peripherals_drug_only :
   forall a b : list pstmt,
     forallb periph_plain a = true -> forallb periph_plain b = true ->
-    (forall c, ~ In (c, s_MET) (E_pairs [] w_periph_modes b)) ->
     exists items, lnt_peripherals a b = Ok items /\
       ((exists c, In (c, s_DRUG) (E_pairs [] w_periph_modes a) /\ In (c, s_DRUG) (E_pairs [] w_periph_modes b)) -> items = []) /\
       (forall i, In i items -> exists n, i = LKey [AS s_PERIPHERALS; AI (Z.of_N n)] /\ In (n, s_DRUG) (E_pairs [] w_periph_modes b)).
